@@ -235,6 +235,24 @@ def k4_siblings(F, R, ops):
             if derives_from(t, lambda x: x[0] in ('load', 'field') and 'status' in fmt(x)):
                 ok = True
         R.check(ok, 'K4', '%s:returns-status' % name, fn_site(F, fn['id']), 'result is the conversion of the response status byte', '%s does not return the mapping of the status byte' % name)
+        # ... as the device left it: every read of the status byte happens after the completion was consumed (the bytes the
+        # device wrote reach the caller's buffer when pop_used unshares it)
+        from . import C05 as _c5
+        _roles = _c5.classify_api(_c5.queue_api(F, model(F)))
+        done = [m.id for m in sg.all_calls(lambda d: _roles.get(d.get('fn')) in ('pop_used', 'add_notify_wait_pop'))]
+        reads = []
+        for m in sg.nodes:
+            if m.kind == 'assign' and m.d['rv']['rv'] == 'use':
+                pl = m.d['rv']['op'].get('copy') or m.d['rv']['op'].get('move')
+                if pl and any(isinstance(pp, dict) and pp.get('n') == 'status' and 'BlkResp' in (pp.get('adt') or '') for pp in pl['p']):
+                    reads.append(m)
+            if m.kind == 'call' and m.d.get('fn', '').endswith('BlkResp::status'):
+                reads.append(m)
+        early = [m for m in reads if done and not sg.always_before(done, m.id)]
+        R.check(bool(reads) and bool(done) and not early, 'K4', '%s:status-read-after-completion' % name, fn_site(F, fn['id']),
+                '%d status read(s), all after the completion call' % len(reads),
+                '%s reads the response status%s before the completion is consumed: it reports what the buffer held before the device answered '
+                '(with a bouncing HAL the device\'s byte only arrives when pop_used unshares the buffer)' % (name, (' at %s' % site(sg, early[0])) if early else ''))
 
 
 def k5_status(F, R):
